@@ -45,6 +45,17 @@ def _strategy(maxW: int):
         shapes = [draw(gen.st_shape(cfg["mpd"], max_order=4, max_numel=120, min_order=1)) for _ in range(npar)]
         T = draw(st.integers(3, 6))
         steps = draw(st.lists(gen.st_step(npar, cfg["gscale"], edits=False), min_size=T, max_size=T))
+        if fl == "hsdp" and draw(st.integers(0, 4)) == 0:
+            # class "many blocks": > 64 blocks per shard with a leading parameter that always has a gradient (selector bookkeeping at scale)
+            cfg["mpd"] = draw(st.sampled_from([1, 2]))
+            cfg["merge"] = False
+            shapes = [draw(st.sampled_from([[70 * S], [36 * S, 2], [9 * S, 8]]))] + [draw(st.sampled_from([[2 * S], [2 * S, 2], [3 * S]])) for _ in range(draw(st.integers(2, 4)))]
+            npar = len(shapes)
+            steps = []
+            for _ in range(T):
+                st_ = draw(gen.st_step(npar, cfg["gscale"], edits=False, allow_absent=False))
+                st_["mask"] = [True] + [draw(st.booleans()) for _ in range(npar - 1)]
+                steps.append(st_)
         return {"flavour": fl, "R": R, "S": S, "G": G, "comm_params": draw(st.booleans()), "comm_dtype": draw(st.sampled_from(["default", "fp32", "fp16", "bf16"])),
                 "cfg": cfg, "shapes": shapes, "pseed": draw(st.integers(0, 10**5)), "steps": steps, "repair": True}
 
